@@ -22,6 +22,7 @@ is a mathematical fact about c <= 1/4, cited not checked).
 """
 from .. import protocols
 from ..harness import arr, index, integer, scalar
+from .. import tq
 from ..interp import State
 from ..terms import Dim, T, V, vconst
 
@@ -54,7 +55,7 @@ def check(ctx):
     ctx.no_shape_conflicts("Shape", "VoronoiFPS._get_active", I, 0, site)
     # R-INDEXSPACE: the write goes to the first n_selected_ slots of dSL_
     t = ctx.attr(st, o, "dSL_").term
-    ok = t.op == "store" and "n_selected" in repr(t.args[1]) and t.args[1].op == "slice"
+    ok = t.op == "store" and tq.has_sym(t.args[1], "n_selected") and t.args[1].op == "slice"
     ctx.ob("R-INDEXSPACE", "dSL_ written on [:n_selected_]", ok, f"store index {t.args[1]!r}" if t.op == "store" else repr(t)[:200], site)
     # first call (nothing selected yet): every point is active
     I, st = ctx.interp(), State()
@@ -62,7 +63,7 @@ def check(ctx):
     a0["n_selected_"] = vconst(0)
     o = ctx.bare_object(I, st, cls, a0)
     act0 = ctx.call_method(I, st, o, "_get_active", X, l)
-    ctx.ob("R-BOTHARMS", "with nothing selected every point is active", N.nf(act0.term) == N.nf(T("astype", T("arange", T("dim", Dim.of("N"))), "int")) or repr(act0.term).startswith("arange(dim(N))"), f"{act0.term!r}", site)
+    ctx.ob("R-BOTHARMS", "with nothing selected every point is active", N.nf(act0.term) == N.nf(T("astype", T("arange", T("dim", Dim.of("N"))), "int")), f"{act0.term!r}", site)
     # ---- _update_post_selection -------------------------------------------------------
     active = arr("active", "A", inp=False, dtype="int")
 
